@@ -38,6 +38,7 @@ import (
 	"os/exec"
 	"runtime"
 	"runtime/debug"
+	"runtime/metrics"
 	"strconv"
 	"strings"
 	"syscall"
@@ -128,10 +129,13 @@ var (
 )
 
 type hCtx struct {
-	panics   []string
-	first    string
-	nops     int  // operations executed (distribution only)
-	verified bool // the post-verification round ran (a token with a valid tail verified)
+	panics     []string
+	first      string
+	items      int    // caveats in the decoded value (all nesting levels), 0 if nothing decoded
+	maxOpAlloc uint64 // the most any single operation allocated (beyond 4 KiB per item), and which
+	maxOpName  string
+	nops       int  // operations executed (distribution only)
+	verified   bool // the post-verification round ran (a token with a valid tail verified)
 }
 
 func panicLine(p any) string {
@@ -151,8 +155,34 @@ func panicLine(p any) string {
 }
 
 // op runs one library operation isolated under recover
+var heapAllocSample = []metrics.Sample{{Name: "/gc/heap/allocs:bytes"}}
+
+// cumulative bytes allocated on the heap by this process (cheap: no stop-the-world)
+func heapAllocs() uint64 {
+	metrics.Read(heapAllocSample)
+	if heapAllocSample[0].Value.Kind() == metrics.KindUint64 {
+		return heapAllocSample[0].Value.Uint64()
+	}
+	return 0
+}
+
 func (c *hCtx) op(name string, f func()) {
 	c.nops++
+	a0 := heapAllocs()
+	defer func() {
+		d := heapAllocs() - a0
+		// operations that walk the caveats pay a fixed price per CAVEAT whatever its wire size (an HMAC state and
+		// an encoder per caveat in Verify, reflection and small objects in the JSON rendering: 1-4 KB for a
+		// two-byte caveat): linear in the number of items, which the per-byte part of the bound does not cover
+		if per := uint64(c.items) * 4096; d > per {
+			d -= per
+		} else {
+			d = 0
+		}
+		if d > c.maxOpAlloc {
+			c.maxOpAlloc, c.maxOpName = d, name
+		}
+	}()
 	defer func() {
 		if p := recover(); p != nil {
 			c.panics = append(c.panics, name)
@@ -640,6 +670,10 @@ const bigInput = 8192
 func runHostile(in *hIn) (res string, value string, ops string, allocBytes uint64, info string) {
 	b := in.bytes()
 	c := &hCtx{}
+	// everything the operations on the decoded value allocate, all of them together (cumulative heap allocation:
+	// garbage counts - the property bounds what is allocated, not what is retained)
+	var ms0 runtime.MemStats
+	runtime.ReadMemStats(&ms0)
 	dec := "err"
 	var alloc uint64
 	switch in.kind {
@@ -659,6 +693,7 @@ func runHostile(in *hIn) (res string, value string, ops string, allocBytes uint6
 			break
 		}
 		dec = "ok"
+		hWalk(cs.Caveats, func(macaroon.Caveat) { c.items++ })
 		// (a top-level wire nil is an empty set for the library; the model's decodeCavs has no such case: no value line)
 		if len(b) <= valueLineMax && b[0] != 0xc0 && !strings.HasSuffix(in.tag, ".over200") {
 			c.op("value", func() { value = "ok " + sxCavs(cs.Caveats) })
@@ -698,6 +733,7 @@ func runHostile(in *hIn) (res string, value string, ops string, allocBytes uint6
 			c.first = panicLine(pan)
 		} else if err == nil {
 			dec = "ok"
+			hWalk(m.UnsafeCaveats.Caveats, func(macaroon.Caveat) { c.items++ })
 			if len(b) <= valueLineMax && !strings.HasSuffix(in.tag, ".over200") {
 				c.op("value", func() { value = "ok " + sxMac(m) })
 			}
@@ -805,7 +841,17 @@ func runHostile(in *hIn) (res string, value string, ops string, allocBytes uint6
 	if strings.Contains(in.tag, ".extmap") && dec != "panic" {
 		dec, value = "?", "" // outside the modelled wire domain: the accept/refuse verdict is not compared
 	}
-	return dec + " " + c.field() + " " + allocBucket(alloc, len(b)), value, c.opList(), alloc, fmt.Sprintf("%d,%d", c.nops, v)
+	var ms1 runtime.MemStats
+	runtime.ReadMemStats(&ms1)
+	opsAlloc := ms1.TotalAlloc - ms0.TotalAlloc
+	bucket := allocBucket(alloc, len(b))
+	if bucket == "alloc:fine" {
+		// every single operation on the decoded value obeys the same bound as the decode step
+		if ob := allocBucket(c.maxOpAlloc, len(b)); ob != "alloc:fine" {
+			bucket = strings.Replace(ob, "alloc:balloon:", "alloc:balloon-op("+c.maxOpName+"):", 1)
+		}
+	}
+	return dec + " " + c.field() + " " + bucket, value, c.opList(), alloc, fmt.Sprintf("%d,%d,%d", c.nops, v, opsAlloc)
 }
 
 // famHostileChild: the worker.  HOSTILE_IN = input file, HOSTILE_OUT = result file (appended, one line per
@@ -920,6 +966,7 @@ type hRes struct {
 	alloc    uint64
 	nops     int
 	verified bool
+	opsAlloc uint64
 }
 
 func fatalLine(stderr string) string {
@@ -964,9 +1011,12 @@ func runWorkers(dir string, ins []*hIn) []hRes {
 			ms, _ := strconv.Atoi(p[3])
 			ab, _ := strconv.ParseUint(p[5], 10, 64)
 			results[i] = hRes{res: p[1], val: p[2], ms: ms, ops: p[4], alloc: ab}
-			if q := strings.Split(p[6], ","); len(q) == 2 {
+			if q := strings.Split(p[6], ","); len(q) >= 2 {
 				results[i].nops, _ = strconv.Atoi(q[0])
 				results[i].verified = q[1] == "1"
+				if len(q) > 2 {
+					results[i].opsAlloc, _ = strconv.ParseUint(q[2], 10, 64)
+				}
 			}
 			if i+1 > done {
 				done = i + 1
@@ -2079,6 +2129,35 @@ func (g *hGen) repeated() {
 	}
 }
 
+// many small caveats that ALL refuse a request: clearing reports every refusal - what that costs must stay
+// proportional to the input (an error value that embeds the text of all earlier ones is quadratic)
+func (g *hGen) manyRefusing() {
+	one := func(c macaroon.Caveat) []byte {
+		b, err := encOne(c)
+		if err != nil {
+			panic(err)
+		}
+		return b[1:] // without the one-element array header
+	}
+	a0 := resset.Action(0)
+	units := map[string][]byte{
+		"action0":       one(&a0),
+		"org9":          one(&flyio.Organization{ID: 9, Mask: 0}),
+		"window.ended":  one(&macaroon.ValidityWindow{NotBefore: 0, NotAfter: 1}),
+		"unregistered":  {0xce, 0x00, 0x01, 0x86, 0x9f, 0xc0},
+		"apps.mismatch": one(&flyio.Apps{Apps: resset.ResourceSet[uint64, resset.Action]{77: resset.ActionAll}}),
+	}
+	for _, name := range []string{"action0", "org9", "window.ended", "unregistered", "apps.mismatch"} {
+		for _, n := range []int{300, 1500, 4000} {
+			b := append([]byte{0xdd}, bePut(4, uint64(2*n))...)
+			for i := 0; i < n; i++ {
+				b = append(b, units[name]...)
+			}
+			g.add("cavs", fmt.Sprintf("manyrefusing.%s.%d", name, n), b)
+		}
+	}
+}
+
 func (g *hGen) random(n int) {
 	r := g.r
 	for i := 0; i < n; i++ {
@@ -2288,6 +2367,7 @@ func famHostile(r *Rng, o *Out, tier string) {
 	g.deepKinds(tier == "thorough")
 	g.oversize(true)
 	g.repeated()
+	g.manyRefusing()
 	g.skeletons(1200 * scale)
 	g.unknown(500 * scale)
 	g.lenient(250 * scale)
@@ -2332,6 +2412,16 @@ func famHostile(r *Rng, o *Out, tier string) {
 		o.stats["library-operations-executed"] += res.nops
 		if res.verified {
 			o.count("post-verification-round." + in.kind)
+		}
+		if !res.crashed && res.nops > 0 {
+			// bytes allocated by the operations per input byte and operation (distribution only)
+			per := int(res.opsAlloc / (uint64(len(in.bytes())+1) * uint64(res.nops)))
+			if per > o.stats["opsalloc.perByteAndOp.max."+in.kind] {
+				o.stats["opsalloc.perByteAndOp.max."+in.kind] = per
+			}
+			if int(res.opsAlloc>>20) > o.stats["opsalloc.MiB.max."+in.kind] {
+				o.stats["opsalloc.MiB.max."+in.kind] = int(res.opsAlloc >> 20)
+			}
 		}
 		if !res.crashed {
 			// how close the decode step came to the bound, in permille (distribution only)
